@@ -140,6 +140,21 @@ VERIF_HARNESS(h_s08)
 //@harness h_s08 param n=0..3 tier=quick loop=20
 //@harness h_s08 param n=4..4 tier=thorough loop=20
 
+// s09: optional inside repetition inside alternative, under the space skipper; the left branch may consume several
+// elements and blanks before failing on the missing ';', then the right branch restarts from the saved position
+VERIF_HARNESS(h_s09)
+{
+  static constexpr node g[] = {ALT(1, 8, T_STRING + 200, T_STRING), SEQ(2, 7), REP(3), SEQ(4, 6), OPT(5), LIT('a'), SET("b"), LIT(';'),
+                               PLUS(9), SET("ab"), /*skipper 10*/ REP(11), SET(" \n\t")};
+  auto const parser{(*(-p::literal{'a'} >> p::char_set{'b'}) >> p::literal{';'}) | +p::char_set{'a', 'b'}};
+  static_assert(std::is_same_v<
+                p::result_of<decltype(parser)>,
+                fcppt::variant::object<std::vector<fcppt::tuple::object<fcppt::optional::object<fcppt::unit>, char>>, std::string>>);
+  check(parser, p::skipper::space(), g, 0, 10, len());
+}
+//@harness h_s09 param n=0..3 tier=quick loop=20
+//@harness h_s09 param n=4..4 tier=thorough loop=20 wall=900
+
 // n01: uint<unsigned> >> uint<unsigned> under the space skipper (the documentation's example: "10 20")
 VERIF_HARNESS(h_n01)
 {
@@ -148,8 +163,8 @@ VERIF_HARNESS(h_n01)
   static_assert(std::is_same_v<p::result_of<decltype(parser)>, fcppt::tuple::object<unsigned, unsigned>>);
   check(parser, p::skipper::space(), g, 0, 2, len());
 }
-//@harness h_n01 param n=0..3 tier=quick loop=20 paths=60000
-//@harness h_n01 param n=4..4 tier=thorough loop=20 paths=200000 wall=1500
+//@harness h_n01 param n=0..2 tier=quick loop=20
+//@harness h_n01 param n=3..3 tier=thorough loop=20 paths=200000 wall=1500
 
 // n02: the same without skipper can never succeed ("the first uint parser will always consume as many digits as it can")
 VERIF_HARNESS(h_n02)
@@ -164,7 +179,7 @@ VERIF_HARNESS(h_n02)
   verif_assert(!r.has_success(), "uint >> uint without skipping never succeeds");
   verif_reach("end");
 }
-//@harness h_n02 param n=0..2 tier=quick loop=20 paths=60000
+//@harness h_n02 param n=0..2 tier=quick loop=20
 
 // n03: int_<int> >> *char_: optional '-', digits, value and sign; the rest shows the position
 VERIF_HARNESS(h_n03)
@@ -174,7 +189,8 @@ VERIF_HARNESS(h_n03)
   static_assert(std::is_same_v<p::result_of<decltype(parser)>, fcppt::tuple::object<int, std::string>>);
   check(parser, p::skipper::epsilon{}, g, 0, -1, len());
 }
-//@harness h_n03 param n=0..3 tier=quick loop=20 paths=60000
+//@harness h_n03 param n=0..2 tier=quick loop=20
+//@harness h_n03 param n=3..3 tier=thorough loop=20 paths=200000 wall=1500
 
 // n04: uint<unsigned short> with 5 digits: values above 65535 make the parser fail (extract_from_string contract)
 VERIF_HARNESS(h_n04)
@@ -183,4 +199,14 @@ VERIF_HARNESS(h_n04)
   auto const parser{p::uint<unsigned short>{} | *p::char_{}};
   check(parser, p::skipper::epsilon{}, g, 0, -1, len());
 }
-//@harness h_n04 param n=5..5 tier=thorough loop=20 paths=400000 wall=3000
+//@harness h_n04 param n=0..2 tier=quick loop=20
+
+// n05: the overflow boundary of uint<unsigned short>: inputs "655xy" with x, y symbolic (the first three characters are
+// fixed because every symbolic digit costs a 13-way fork in the unordered_set lookup): accepted iff xy <= 35
+VERIF_HARNESS(h_n05)
+{
+  static constexpr node g[] = {ALT(1, 2, T_UNSIGNED + 100, T_STRING), UINT(16), REP(3), ANY()};
+  auto const parser{p::uint<unsigned short>{} | *p::char_{}};
+  check(parser, p::skipper::epsilon{}, g, 0, -1, 5, [](input const &in) { verif_assume(in.b[0] == '6' && in.b[1] == '5' && in.b[2] == '5'); });
+}
+//@harness h_n05 tier=thorough loop=20 wall=900
